@@ -418,11 +418,11 @@ type GhostDecl struct {
 }
 
 type SpecFun struct {
-	Name   string
-	Params []Binder
-	Ret    string
-	Body   Expr // nil => uninterpreted
-	Text   string
+	Name    string
+	Params  []Binder
+	Ret     string
+	Body    Expr // nil => uninterpreted
+	Text    string
 	Assumed bool // lemma taken as an axiom (listed in the evidence)
 }
 
@@ -433,42 +433,42 @@ type Axiom struct {
 }
 
 type UnitSpec struct {
-	Name     string // canonical unit name
-	Assumed  bool   // contract taken on trust (callee not verified)
-	Props    []string
-	Requires []*Clause
-	Ensures  []*Clause
-	Modifies []string // heap classes; nil+ModAll => everything
-	Preserves []string // with no modifies clause: everything is havoced except these classes
-	FrameAssumed bool  // the preserves frame of a verified unit is trusted, not proved
-	External     bool  // declared in a package that is not part of this run: used at call sites only
-	ModSet   bool     // a modifies/pure line was given
-	Pure     bool
-	Loops    map[int]*LoopSpec
+	Name         string // canonical unit name
+	Assumed      bool   // contract taken on trust (callee not verified)
+	Props        []string
+	Requires     []*Clause
+	Ensures      []*Clause
+	Modifies     []string // heap classes; nil+ModAll => everything
+	Preserves    []string // with no modifies clause: everything is havoced except these classes
+	FrameAssumed bool     // the preserves frame of a verified unit is trusted, not proved
+	External     bool     // declared in a package that is not part of this run: used at call sites only
+	ModSet       bool     // a modifies/pure line was given
+	Pure         bool
+	Loops        map[int]*LoopSpec
 	ClosureLoops map[string]*LoopSpec // "$1:2" -> spec
-	Ats      []*AtSpec
-	Ghosts   []*GhostDecl
-	Safe     []string
-	Inline   bool
-	Decr     *Clause // recursion measure
-	Calls    map[string][]string
-	Dyn      map[string]*UnitSpec // assumed frame of dynamic callees (function-typed parameters), by name
-	File     string
-	Pkg      string // package path the contract file belongs to ("" for prelude)
-	Opts     map[string]string
+	Ats          []*AtSpec
+	Ghosts       []*GhostDecl
+	Safe         []string
+	Inline       bool
+	Decr         *Clause // recursion measure
+	Calls        map[string][]string
+	Dyn          map[string]*UnitSpec // assumed frame of dynamic callees (function-typed parameters), by name
+	File         string
+	Pkg          string // package path the contract file belongs to ("" for prelude)
+	Opts         map[string]string
 }
 
 type ContractFile struct {
-	Pkg    string
-	Units  []*UnitSpec
-	Lemmas []*SpecFun
-	Specs  []*SpecFun
-	Axioms []*Axiom
-	Consts map[string]string
+	Pkg          string
+	Units        []*UnitSpec
+	Lemmas       []*SpecFun
+	Specs        []*SpecFun
+	Axioms       []*Axiom
+	Consts       map[string]string
 	GlobalGhosts map[string]string
-	Guarded []GuardDecl
-	Writers []WritersDecl
-	GlobalFacts map[string]Expr
+	Guarded      []GuardDecl
+	Writers      []WritersDecl
+	GlobalFacts  map[string]Expr
 }
 
 // ParseContracts parses the //@ lines of a contract file.
